@@ -77,7 +77,7 @@ def make_exhaustive(maxn):
 
 def random_case(ctx, idx, rng):
     shape_kind = str(rng.choice(['any', 'tall', 'wide', 'row', 'col', 'square']))
-    big = 40
+    big = 40 if idx % 20 else 160
     if shape_kind == 'row':
         m, n = 1, int(rng.integers(1, big))
     elif shape_kind == 'col':
